@@ -234,7 +234,8 @@ class ChangeDistiller:
                 source_non_expression_leaves = dict(_get_non_expression_leaves(source_node))
                 target_non_expression_leaves = dict(_get_non_expression_leaves(target_node))
 
-                if (
+                # Equal nodes (equality is case-insensitive for plain string args) need no Update
+                if not identical_nodes and (
                     source_non_expression_leaves != target_non_expression_leaves
                     or _children_changed_args(source_node, target_node, matchings)
                 ):
@@ -441,7 +442,11 @@ def _is_same_type(source: exp.Expr, target: exp.Expr) -> bool:
             return source.args.get("side") == target.args.get("side")
 
         if isinstance(source, exp.Anonymous):
-            return source.this == target.this
+            return source.this == target.this or (
+                isinstance(source.this, str)
+                and isinstance(target.this, str)
+                and source.this.lower() == target.this.lower()
+            )
 
         return True
 
